@@ -1232,7 +1232,8 @@ class Species(AtomCollection):
             and self.solvent.is_explicit
             and with_solvent
         ):
-            atoms += self.solvent.atoms
+            # NOTE: not in place, which would add the solvent to this species
+            atoms = atoms + self.solvent.atoms
 
         atoms_to_xyz_file(
             atoms=atoms,
